@@ -542,3 +542,15 @@ def execute(plan):
         }
     finally:
         W.close()
+
+
+def directed(tier):
+    """Known finding: KMIP 2.0 GetAttributes with nothing to report."""
+    import random
+    r = random.Random(3)
+    ctx = gen.Ctx(r, nactors=1)
+    steps = setup_steps('OpaqueData', 'PreActive', r, ctx)
+    steps.append({'actor': 0, 'ver': [2, 0], 'probe': True, 'items': [
+        {'op': 'GetAttributes', 'uid': '@x', 'names': ['Digest', 'Link']}]})
+    return [{'actors': [{'cn': 'owner'}], 'seed': 3, 'steps': steps,
+             'cell': ['GetAttributes', 'OpaqueData', 'PreActive', [2, 0], 4]}]
